@@ -75,6 +75,13 @@ type walkResult struct {
 	// OverVal is the offending count when Status == stOverLimit.
 	OverVal  uint64
 	OverBits int // width of the offending count field (32 or 64)
+	// Partial is the value accumulated by a uvarint that ended early or
+	// overflowed (the standard library's ReadUvarint hands that value back
+	// together with its error).
+	Partial uint64
+	// Allowance: bytes a decoder may legitimately allocate for the within-limit
+	// counts accepted before the walk stopped (count × element size).
+	Allowance uint64
 }
 
 type walker struct {
@@ -161,6 +168,9 @@ func (w *walker) uvarint(kind fk, name string) uint64 {
 	var s uint
 	for i := 0; i < 10; i++ {
 		if w.p >= len(w.b) {
+			if w.ok {
+				w.r.Partial = x
+			}
 			w.stop(stTruncated, name)
 			return 0
 		}
@@ -169,6 +179,7 @@ func (w *walker) uvarint(kind fk, name string) uint64 {
 		if c < 0x80 {
 			if i == 9 && c > 1 {
 				w.r.Fields = append(w.r.Fields, field{Off: start, Len: w.p - start, Kind: kind, Name: name})
+				w.r.Partial = x
 				w.stop(stBadVarint, name)
 				return 0
 			}
@@ -180,6 +191,7 @@ func (w *walker) uvarint(kind fk, name string) uint64 {
 		s += 7
 	}
 	w.r.Fields = append(w.r.Fields, field{Off: start, Len: w.p - start, Kind: kind, Name: name})
+	w.r.Partial = x
 	w.stop(stBadVarint, name)
 	return 0
 }
@@ -209,6 +221,14 @@ func (w *walker) count(kind fk, name string, limit uint64) uint64 {
 		w.stop(stOverLimit, name)
 		return 0
 	}
+	elem := uint64(24) // a Point
+	switch limit {
+	case limLoops:
+		elem = 256 // pointer + Loop struct
+	case limCells:
+		elem = 8
+	}
+	w.r.Allowance += v * elem
 	return v
 }
 
